@@ -40,7 +40,7 @@ var GenesisWanted = []string{
 	"hard/reimport:export-settles-supply-interest", "hard/reimport:export-settles-borrow-interest",
 	"hard/reimport:index-order-normalised", "hard/reimport:after-liquidation", "hard/reimport:market-removed-from-params",
 	"hard/reimport:params-not-yet-applied", "hard/reimport:multi-denom-position", "hard/reimport:position-in-a-market-that-is-not-in-the-params",
-	"hard/mutgen:valid=true", "hard/mutgen:valid=false", "hard/mutgen:init:ok",
+	"hard/mutgen:valid=true", "hard/mutgen:valid=false", "hard/mutgen:init:ok", "hard/mutgen:invalid:init:panic",
 	"hard/directed:export-panics-for-new-market-before-first-accrual",
 }
 
@@ -444,7 +444,7 @@ func hexBytes(s string) []byte {
 
 const nHardMutations = 16
 
-func (w *world) mutatedGenesis(kind, sel int, mark func(string)) (term string, ok, valid bool, cls Class) {
+func (w *world) mutatedGenesis(kind, sel int, mark func(string)) (term string, ok, valid bool, cls Class, name string) {
 	func() {
 		defer func() {
 			if r := recover(); r != nil {
@@ -462,7 +462,7 @@ func (w *world) mutatedGenesis(kind, sel int, mark func(string)) (term string, o
 		gs.TotalBorrowed = append(sdk.Coins(nil), gs.TotalBorrowed...)
 		gs.TotalReserves = append(sdk.Coins(nil), gs.TotalReserves...)
 		nd, nb, ng, nm := len(gs.Deposits), len(gs.Borrows), len(gs.PreviousAccumulationTimes), len(gs.Params.MoneyMarkets)
-		name := "none"
+		name = "none"
 		one := sdkmath.OneInt()
 		switch kind {
 		case 0:
@@ -623,15 +623,19 @@ func (w *world) mutatedGenesis(kind, sel int, mark func(string)) (term string, o
 		mark("hard/mutgen:" + name + fmt.Sprintf(":valid=%v", valid))
 		mark(fmt.Sprintf("hard/mutgen:valid=%v", valid))
 		ok = true
+		// the real InitGenesis runs on EVERY perturbed genesis, also those Validate refuses (scratch branch,
+		// never written back, panics recovered): InitGenesis is the only gate at chain start
+		cls, _ = Atomically(w.ctx, func(ctx sdk.Context) error {
+			c2, _ := ctx.CacheContext() // never written back
+			WipeStore(c2, w.tApp.GetKVStoreKey(hardtypes.StoreKey))
+			wipeHardParams(c2, w)
+			hard.InitGenesis(c2, w.hk, w.tApp.GetAccountKeeper(), gs)
+			return nil
+		})
 		if valid {
-			cls, _ = Atomically(w.ctx, func(ctx sdk.Context) error {
-				c2, _ := ctx.CacheContext() // never written back
-				WipeStore(c2, w.tApp.GetKVStoreKey(hardtypes.StoreKey))
-				wipeHardParams(c2, w)
-				hard.InitGenesis(c2, w.hk, w.tApp.GetAccountKeeper(), gs)
-				return nil
-			})
 			mark("hard/mutgen:init:" + cls.String())
+		} else {
+			mark("hard/mutgen:invalid:init:" + cls.String())
 		}
 	}()
 	return
@@ -732,18 +736,22 @@ func GenesisRun(seed uint64, idx, n int, cfg *Cfg, ops []Op, explicit bool, cnt 
 			}
 		}
 		if op.Kind == "mutgen" {
-			term, ok, valid, cls := w.mutatedGenesis(op.D, op.A, mark)
+			term, ok, valid, cls, name := w.mutatedGenesis(op.D, op.A, mark)
 			done = append(done, op)
 			if !ok {
 				// the real export panicked (a state the re-import steps report): nothing to probe
 				steps = append(steps, fmt.Sprintf("(GProbe (mkGen 0 [] [] [] [] [] [] []),\n    ObsProbe [1; 0])"))
 				continue
 			}
-			v, c := int64(0), int64(-1)
+			v, c := int64(0), int64(cls)
 			if valid {
-				v, c = 1, int64(cls)
+				v = 1
 			}
 			steps = append(steps, fmt.Sprintf("(GProbe %s,\n    ObsProbe [%d; %s])", term, v, Zi(c)))
+			if !valid && cls != ClassPanic && out.Fail == nil {
+				out.Fail = &Failure{Step: i, Predicate: "invalid-genesis-imported:hard:" + name, Signature: "invalid-genesis-imported:hard:" + name,
+					Detail: fmt.Sprintf("GenesisState.Validate refuses this genesis state (perturbation %s of a real export) but InitGenesis on an emptied store imports it: %s", name, term)}
+			}
 			continue
 		}
 		if op.Kind == "reimport" {
